@@ -1193,6 +1193,8 @@ _MAXIMAL_OCTET = b"\xff"
 _MAXIMAL_OCTET_VALUE = ord(_MAXIMAL_OCTET)
 _AT_SIGN_VALUE = ord("@")
 _LEFT_SQUARE_BRACKET_VALUE = ord("[")
+_UPPER_Z_VALUE = ord("Z")
+_LEFT_CURLY_BRACKET_VALUE = ord("{")
 
 
 def _wire_length(labels):
@@ -1303,6 +1305,10 @@ def _absolute_successor(name: Name, origin: Name, prefix_ok: bool) -> Name:
             # skipped the most minimal successor, namely "[".
             if octet == _AT_SIGN_VALUE:
                 octet = _LEFT_SQUARE_BRACKET_VALUE
+            elif octet == _UPPER_Z_VALUE:
+                # "Z" compares as "z", so the next value in canonical order is "{";
+                # "[" would sort before the name.
+                octet = _LEFT_CURLY_BRACKET_VALUE
             else:
                 octet += 1
             octets[i] = octet
